@@ -103,6 +103,27 @@ Theorem C09_params_distinct_refuted :
 Proof. exact params_distinct_refuted. Qed.
 Print Assumptions C09_params_distinct_refuted.
 
+(* (b') the operation-level and the path-item-level parameter list of one operation, split in any proportion *)
+Theorem C09_model_params2_distinct_quiet : forall prefix op item out,
+  model_params2 prefix op item = Ok out -> g_params2_quiet prefix op item = true ->
+  NoDup (map p_py out) /\ forall p, In p out -> reserved_param (p_py p) = false.
+Proof. exact model_params2_distinct_quiet. Qed.
+Print Assumptions C09_model_params2_distinct_quiet.
+
+Theorem C09_model_params2_distinct : forall prefix op it ps1 out,
+  params_phase1 prefix op = Ok ps1 -> g_params_plain (phase2_input prefix ps1 it) = true ->
+  model_params2 prefix op (Some it) = Ok out ->
+  out = map (param_fix prefix) (phase2_input prefix ps1 it) /\ NoDup (map p_py out) /\
+  forall p, In p out -> reserved_param (p_py p) = false.
+Proof. exact model_params2_distinct. Qed.
+Print Assumptions C09_model_params2_distinct.
+
+Theorem C09_model_params2_keys : forall prefix op it ps1 out,
+  params_phase1 prefix op = Ok ps1 -> model_params2 prefix op (Some it) = Ok out ->
+  map param_key out = map param_key (phase2_input prefix ps1 it).
+Proof. exact model_params2_keys. Qed.
+Print Assumptions C09_model_params2_keys.
+
 (* (c) enum member keys (Values.v, shared with C14) *)
 Theorem C09_enum_member_keys : forall vs m, values_from_list vs = Some m -> NoDup (keys m).
 Proof. exact values_from_list_keys_nodup. Qed.
